@@ -168,6 +168,7 @@ LAST_RECORD_OFFSET_OFFSET = NAME_SIZE + VERSION_SIZE + 4
 class FileJournal(Journal):
 
     def __init__(self, journalFile):
+        self.__journalFileName = journalFile
         self.__journalFile = ResizableFile(journalFile, defaultContent=self.__getDefaultHeader())
         self.__journal = []
         self.__metaStorer = MetaStorer(journalFile + '.meta')
@@ -196,11 +197,14 @@ class FileJournal(Journal):
     def __setLastRecordOffset(self, offset):
         self.__journalFile.write(LAST_RECORD_OFFSET_OFFSET, struct.pack('<I', offset))
 
-    def add(self, command, idx, term):
-        self.__journal.append((command, idx, term))
+    def __packRecord(self, command, idx, term):
         cmdData = struct.pack('<QQ', idx, term) + to_bytes(command)
         cmdLenData = struct.pack('<I', len(cmdData))
-        cmdData = cmdLenData + cmdData + cmdLenData
+        return cmdLenData + cmdData + cmdLenData
+
+    def add(self, command, idx, term):
+        self.__journal.append((command, idx, term))
+        cmdData = self.__packRecord(command, idx, term)
         self.__journalFile.write(self.__currentOffset, cmdData)
         self.__currentOffset += len(cmdData)
         self.__setLastRecordOffset(self.__currentOffset)
@@ -232,9 +236,20 @@ class FileJournal(Journal):
 
     def deleteEntriesTo(self, entryTo):
         journal = self.__journal[entryTo:]
-        self.clear()
-        for entry in journal:
-            self.add(*entry)
+        # The trimmed journal is built in a temporary file which then replaces the old one, so
+        # that a crash in the middle never loses the entries that are kept.
+        records = b''.join([self.__packRecord(*entry) for entry in journal])
+        currentOffset = FIRST_RECORD_OFFSET + len(records)
+        header = self.__getDefaultHeader()[:LAST_RECORD_OFFSET_OFFSET] + struct.pack('<I', currentOffset)
+        tmpFileName = self.__journalFileName + '.tmp'
+        with open(tmpFileName, 'wb') as f:
+            f.write(header + records)
+            f.flush()
+        self.__journalFile._destroy()
+        shutil.move(tmpFileName, self.__journalFileName)
+        self.__journalFile = ResizableFile(self.__journalFileName, defaultContent=self.__getDefaultHeader())
+        self.__journal = journal
+        self.__currentOffset = currentOffset
 
     def _destroy(self):
         self.__journalFile._destroy()
